@@ -450,3 +450,60 @@ def option_tails(ctx):
         c.replay = {'argv': argv, 'rc': r['rc'], 'stdout': show(r['stdout']), 'stderr': show(r['stderr'])[-200:]}
         accepted = r['rc'] == 0
         c.status = 'reproduced' if accepted == c.role.startswith('accepts-trailing-text') else 'not-reproduced'
+
+
+# ---------------------------------------------------------------- reader::from_string: the 32-byte name truncation
+def truncation(ctx):
+    """C05.c: from_string keeps the first 32 bytes of the expression as the reader name; String::truncate panics when
+    byte 32 is not a char boundary"""
+    from .scen_kernels import boundary
+    run = ctx.run
+    fam = run.family('expr.name_truncation', 'reader::from_string never panics, whatever multi-byte character sits across byte offset 32 of the expression text')
+    run.bounds['truncation'] = 'expression texts of 29..31 ASCII bytes followed by 3 free bytes forming well-formed UTF-8 (every code point width across offset 32), and short texts'
+    panics = []
+    def s_truncate(ex, st, func, args, ty):
+        s = obj(st, args[0]); m = list(model(st, s)); n = cval(args[1].t)
+        if n is None: raise Broken('truncate to a symbolic length')
+        if n > len(m): return [(st, UNIT)]
+        bs = [b.t for b in m]; okb = boundary(bs, n); out = []
+        if ex.feasible(st, z3.Not(okb)):
+            s2 = st.clone(); s2.pc.append(z3.Not(okb)); s2.status = 'panic'; s2.notes.append('String::truncate not on a char boundary'); panics.append(s2)
+        if ex.feasible(st, okb):
+            st.pc.append(okb); set_model(st, s, m[:n]); out.append((st, UNIT))
+        return out
+    def s_is_boundary(ex, st, func, args, ty):
+        m = model(st, args[0]); n = cval(args[1].t)
+        if n is None: raise Broken('is_char_boundary at a symbolic index')
+        if n > len(m): return [(st, BoolV(z3.BoolVal(False)))]
+        return [(st, BoolV(boundary([b.t for b in m], n)))]
+    def s_reader_new(ex, st, func, args, ty): return [(st, named(st, st.fresh_name('reader'), 'Reader'))]
+    summ = [(r'String::truncate$', s_truncate), (r'impl str>::is_char_boundary$|String::is_char_boundary$', s_is_boundary), (r'Reader::<.*>::new$', s_reader_new),
+            (r'<std::string::String as Clone>::clone$', lambda ex, st, f, a, t: [(st, seqobj(st, 'String', model(st, a[0])))]), (r'String::as_bytes$|impl str>::as_bytes$', s_identity),
+            (r'String::len$|impl str>::len$', s_seq_len), (r'as Deref>::deref$', s_identity), (r'std::cmp::min::<usize>$|Ord>::min$', lambda ex, st, f, a, t: [(st, BV(z3.If(z3.ULT(a[0].t, a[1].t), a[0].t, a[1].t)))])]
+    ex = ctx.exec(summaries=summ, max_visits=40)
+    F = ex.find(r'^from_string$|^reader::from_string$')
+    for pre in (0, 5, 29, 30, 31):
+        free = [z3.BitVec(f'u{i}', 8) for i in range(3)]
+        st = State(); src = seqobj(st, 'String', [BV(bv8(0x61)) for _ in range(pre)] + [BV(b) for b in free] + [BV(bv8(0x62))] * 2)
+        st.pc.append(utf8_valid(free))
+        panics.clear()
+        ex.new_frame(st, F, [slot(st, src, 'src*')])
+        for d in ex.run(st) + list(panics):
+            run.paths += 1
+            if d.status == 'infeasible': continue
+            fam.obligations += 1; fam.witnesses += 1
+            if d.status == 'returned': fam.discharged += 1; continue
+            ok_, m = ex.valid(d, z3.BoolVal(False))
+            bs = bytes(m.eval(b, True).as_long() for b in free)
+            if not any(c.role == 'truncate-panic' for c in fam.candidates):
+                fam.candidates.append(Candidate(fam.name, 'truncate-panic' if d.status == 'panic' else f'path-{d.status}', f'from_string on {pre} ASCII bytes + {bs!r} + "bb": {d.status} {d.notes[-1:]}',
+                                                {'pre': pre, 'free_hex': bs.hex()}, unmodelled=(d.havoc or [None])[0]))
+    if fam.discharged: fam.add_sample({'text': '31 x "a" + any 3 well-formed UTF-8 bytes + "bb"', 'verdict': 'no panic path'})
+    run.absorb(ex)
+    from .cli import run_jawk, show
+    for c in fam.candidates:
+        if c.unmodelled: c.status = 'inconclusive'; continue
+        text = '"' + 'a' * (c.model['pre'] - 1) + bytes.fromhex(c.model['free_hex']).decode('utf-8') + 'bb"'
+        r = run_jawk(ctx, ['--select', text + '=x'], b'1')
+        c.replay = {'argv': ['--select', text + '=x'], 'rc': r['rc'], 'stderr': show(r['stderr'])[-300:]}
+        c.status = 'reproduced' if r['rc'] == 101 or b'panicked' in r['stderr'] else 'not-reproduced'
